@@ -1,6 +1,7 @@
 import Driver.Pure
 import Driver.Seq
 import Driver.Trace
+import Driver.P1
 /-
   Line-protocol driver: `driver pure|seq < ops > answers`.
 -/
@@ -41,6 +42,13 @@ partial def loopTrace (h : IO.FS.Stream) (out : IO.FS.Stream) (st : TraceSt) : I
   out.putStrLn o
   loopTrace h out st'
 
+partial def loopP1 (h : IO.FS.Stream) (out : IO.FS.Stream) (st : Driver.P1V.VSt) : IO Unit := do
+  let line ← h.getLine
+  if line.isEmpty then return ()
+  let (st', o) := Driver.P1V.vStep st line
+  out.putStrLn o
+  loopP1 h out st'
+
 def main (args : List String) : IO UInt32 := do
   let stdin ← IO.getStdin
   let stdout ← IO.getStdout
@@ -48,6 +56,7 @@ def main (args : List String) : IO UInt32 := do
   | ["pure"] => loopPure stdin stdout; return 0
   | ["seq"] => loopSeq stdin stdout none; return 0
   | ["trace"] => loopTrace stdin stdout {}; return 0
+  | ["p1"] => loopP1 stdin stdout {}; return 0
   | _ =>
-    IO.eprintln "usage: driver pure|seq"
+    IO.eprintln "usage: driver pure|seq|trace|p1"
     return 2
